@@ -6,6 +6,7 @@ import CnfgenModel.Fam.MapCons
 import CnfgenModel.Graph.Basic
 namespace Cnfgen
 namespace Fam
+namespace G2
 open Vars
 
 /-- `G.has_edge(u, v)` on vertices given as naturals -/
@@ -36,5 +37,6 @@ def graphAutomorphism (G : SimpleG) : Formula :=
   { nvars := G.n * G.n
     cons := (graphIsomorphism G G).cons ++ [Con.clause ((verts G.n).map (fun u => -(mlit 1 G.n u u)))] }
 
+end G2
 end Fam
 end Cnfgen
